@@ -548,6 +548,10 @@ func (ex *Exec) monitorAcquire(st *State, l *Term, cond *Term) {
 	if !ok {
 		return
 	}
+	if ex.monitorsAcquired == nil {
+		ex.monitorsAcquired = map[string]bool{}
+	}
+	ex.monitorsAcquired[md.Key] = true
 	for _, g := range md.Guards {
 		found := false
 		for i := 0; i < su.NumFields(); i++ {
@@ -580,6 +584,18 @@ func (ex *Exec) monitorAcquire(st *State, l *Term, cond *Term) {
 			c = ex.ts.Implies(cond, c)
 		}
 		ex.assume(st.PC, c)
+	}
+	for _, as := range md.Assumes {
+		c, err := mctx.evalBool(as.Expr)
+		if err != nil {
+			ex.contractProblem("%s: monitor %s assume: %v", as.Pos, md.Key, err)
+			continue
+		}
+		if cond != nil {
+			c = ex.ts.Implies(cond, c)
+		}
+		ex.assume(st.PC, c)
+		ex.usedStubs["monitor "+md.Key+": assumed at acquisition: "+as.Expr.String()+" -- "+as.Label] = true
 	}
 	ex.usedStubs["monitor "+md.Key+": guarded fields are havocked at every acquisition; the invariant is assumed there and proved at every release inside functions under contract"] = true
 }
